@@ -8,6 +8,7 @@ import (
 	"bytes"
 	"encoding/json"
 	"fmt"
+	"sort"
 	"strings"
 )
 
@@ -228,12 +229,17 @@ func (s *StructType) IsValidExpression(exp Exp, pipeline *Pipeline, ast *Ast) er
 			}
 		}
 		if len(exp.Value) > len(s.Members) {
+			unexpected := make([]string, 0, len(exp.Value)-len(s.Members))
 			for key := range exp.Value {
 				if om := s.getMember(key); om == nil {
-					errs = append(errs, &IncompatibleTypeError{
-						Message: "unexpected field " + key,
-					})
+					unexpected = append(unexpected, key)
 				}
+			}
+			sort.Strings(unexpected)
+			for _, key := range unexpected {
+				errs = append(errs, &IncompatibleTypeError{
+					Message: "unexpected field " + key,
+				})
 			}
 		}
 		return errs.If()
